@@ -19,7 +19,7 @@ import (
 	"go.etcd.io/bbolt/verifh/refdec"
 )
 
-const c19Rule = "clean side: the end state of every generated history must give 0 errors from Tx.Check and exit status 0 from `bbolt check` (every other check of this framework additionally runs Tx.Check after every commit). Corrupt side: for a generated base file with a persisted freelist, every eligible target (quick: up to 6 per class, thorough: all) of each class is corrupted with the independent decoder's byte patchers: (1) unreachable-unfreed: an id dropped from the freelist page; (2) reachable-freed: the id of a reachable page added to the freelist page - first page of a node AND an overflow page of a node; (3) referenced twice: a branch element or a bucket root retargeted to a sibling; (4) freed twice: a freelist id duplicated; (5) invalid type: flags of a reachable page set to 0x00 / 0x20 / 0x03; (6) key order: two equal-length keys of a leaf swapped, a leaf's first key made smaller than its parent separator, two branch keys swapped. Only mutations that keep every offset inside the file are generated. Oracle: the independent decoder must confirm an anomaly on the mutated file (sanity of the construction), then Tx.Check (read-write open with default options; read-only open with preloaded freelist, as the CLI opens it) must report >=1 error and `bbolt check` must exit non-zero. Non-trivial = every (base, class, target) triple; distinct by triple."
+const c19Rule = "clean side: the end state of every generated history must give 0 errors from Tx.Check and exit status 0 from `bbolt check` (every other check of this framework additionally runs Tx.Check after every commit). Corrupt side: for a generated base file with a persisted freelist, every eligible target (quick: up to 6 per class, thorough: all) of each class is corrupted with the independent decoder's byte patchers: (1) unreachable-unfreed: an id dropped from the freelist page; (2) reachable-freed: the id of a reachable page added to the freelist page - first page of a node AND an overflow page of a node; (3) referenced twice: a branch element or a bucket root retargeted to a sibling; (4) freed twice: a freelist id duplicated; (5) invalid type: flags of a reachable page set to 0x00 / 0x20 / 0x03; (6) key order: two equal-length keys of a leaf swapped, a key made equal to its predecessor, a leaf's first key made smaller than its parent separator (far below and minimally below), a leaf's last key raised to the separator of its next sibling, two branch keys swapped. Only mutations that keep every offset inside the file are generated. Oracle: the independent decoder must confirm an anomaly on the mutated file (sanity of the construction), then Tx.Check (read-write open with default options; read-only open with preloaded freelist, as the CLI opens it) must report >=1 error and `bbolt check` must exit non-zero. Non-trivial = every (base, class, target) triple; distinct by triple."
 
 type c19Mut struct {
 	Class  string `json:"class"`
@@ -141,7 +141,7 @@ func c19Mutations(f *refdec.File, perClass int, pick func(n int) int) []c19Mut {
 	}
 	add("invalid-type", c5)
 	// (6) key order
-	var c6a, c6b, c6c []c19Mut
+	var c6a, c6b, c6c, c6d, c6e []c19Mut
 	for _, p := range pages {
 		p := p
 		if p.Flags == refdec.FlagLeaf {
@@ -150,6 +150,33 @@ func c19Mutations(f *refdec.File, perClass int, pick func(n int) int) []c19Mut {
 				if x.KeyLen == y.KeyLen && !x.IsBucket && !y.IsBucket {
 					c6a = append(c6a, c19Mut{Class: "key-order-leaf", Target: fmt.Sprintf("keys %d and %d of leaf page %d swapped", i, i+1, p.ID), apply: func(g *refdec.File) bool {
 						return g.SwapKeys(x, y)
+					}})
+				}
+			}
+			// a key made EQUAL to its predecessor (strictly increasing order is required within a page)
+			for i := 0; i+1 < len(p.Elems); i++ {
+				a, b := p.Elems[i], p.Elems[i+1]
+				if a.KeyLen == b.KeyLen && !a.IsBucket && !b.IsBucket {
+					i := i
+					c6d = append(c6d, c19Mut{Class: "key-order-duplicate", Target: fmt.Sprintf("key %d of leaf page %d made equal to key %d", i+1, p.ID, i), apply: func(g *refdec.File) bool {
+						copy(g.Data[p.Elems[i+1].KeyOff:], g.Key(p.Elems[i]))
+						return true
+					}})
+				}
+			}
+			// last key of a leaf raised to the separator of the next sibling in the parent (upper bound)
+			if p.Parent != 0 && len(p.Elems) > 0 {
+				var sepNext []byte
+				for _, q := range pages {
+					if q.ID == p.Parent && p.ParentIx+1 < len(q.Elems) {
+						sepNext = append([]byte(nil), f.Key(q.Elems[p.ParentIx+1])...)
+					}
+				}
+				last := p.Elems[len(p.Elems)-1]
+				if sepNext != nil && len(sepNext) == last.KeyLen && !last.IsBucket {
+					c6e = append(c6e, c19Mut{Class: "key-order-upper", Target: fmt.Sprintf("last key of leaf page %d raised to the separator of its next sibling in branch page %d", p.ID, p.Parent), apply: func(g *refdec.File) bool {
+						copy(g.Data[last.KeyOff:], sepNext)
+						return true
 					}})
 				}
 			}
@@ -200,6 +227,8 @@ func c19Mutations(f *refdec.File, perClass int, pick func(n int) int) []c19Mut {
 	add("key-order-leaf", c6a)
 	add("key-order-parent", c6b)
 	add("key-order-branch", c6c)
+	add("key-order-duplicate", c6d)
+	add("key-order-upper", c6e)
 	for i := range out {
 		_ = i
 	}
